@@ -16,7 +16,7 @@ tvars == <<bvars, pvars, l, cfg>>
 Res(r) == IF r = "ok" THEN "ok" ELSE "err"      \* a panic of the library is an exception in Python
 
 TrLibPos == /\ l <= NRec /\ Ev.ev = "lib" /\ Ev.op = "pos"
-            /\ posList' = Ev.list /\ UNCHANGED <<bvars, matchers, cfg>> /\ l' = l + 1
+            /\ posList' = Ev.list /\ UNCHANGED <<bvars, matchers, pretoks, cfg>> /\ l' = l + 1
 
 TrLib == /\ l <= NRec /\ Ev.ev = "lib" /\ Ev.op # "pos"
          /\ IF Ev.op = "tok"
@@ -26,17 +26,19 @@ TrLib == /\ l <= NRec /\ Ev.ev = "lib" /\ Ev.op # "pos"
 
 TrSess == /\ l <= NRec /\ Ev.ev = "sess"
           /\ tks' = Fn0 /\ lists' = Fn0 /\ handles' = Fn0 /\ nextInp' = 1 /\ cfg' = Ev.cfg
-          /\ libTok' = Fn0 /\ libLookup' = Fn0 /\ matchers' = Fn0 /\ posList' = <<>> /\ l' = l + 1        \* the oracle's results for this session follow
+          /\ libTok' = Fn0 /\ libLookup' = Fn0 /\ matchers' = Fn0 /\ posList' = <<>> /\ pretoks' = Fn0 /\ l' = l + 1        \* the oracle's results for this session follow
 
 Fields(a) == IF a.all_fields THEN AllFields ELSE SeqToSet(a.fields)
 
-IsPosOp == Ev.op \in {"matcher", "matcher_fn", "mop"}
+IsPosOp == Ev.op \in {"matcher", "matcher_fn", "mop", "pretok_new", "pretok_call"}
 
 TrPosCall == /\ l <= NRec /\ Ev.ev = "call" /\ IsPosOp
              /\ LET a == Ev.args IN
                 CASE Ev.op = "matcher" -> MatcherNew(a.mid, a.pats, Ev.res)
                   [] Ev.op = "matcher_fn" -> MatcherFn(a.mid, a.field, a.value, Ev.res)
                   [] Ev.op = "mop" -> MatcherOp(a.mid, a.kind, a.a, a.b, Ev.res)
+                  [] Ev.op = "pretok_new" -> Ev.res = "ok" /\ PreTokNew(a.pt, a.mode, Fields(a), a.projection, a.handler)
+                  [] Ev.op = "pretok_call" -> PreTokCall(a.pt, a.text, Ev.res, Ev.val)
              /\ UNCHANGED <<bvars, cfg>> /\ l' = l + 1
 
 TrCall == /\ l <= NRec /\ Ev.ev = "call" /\ ~IsPosOp
